@@ -664,6 +664,19 @@ Proof. exact creach3_F. Qed.
 Check C05_reach3_in_F : forall dbg hp hpo hd u, CReach3 dbg hp hpo hd u -> CReachF dbg hp hpo hd u.
 Print Assumptions C05_reach3_in_F.
 
+(* the same for CReach3 itself: the premise `base_ok b` of CR3_join is redundant (every record of CReach3 satisfies it),
+   and C05_alphabet_reach holds without its premise on the host text, in the `sharp` form *)
+Theorem C05_reach3_sharp : forall dbg hp hpo hd u, HostWf hp hpo hd -> HostOK hp hpo hd -> IpDisp hd -> IpOKv hd ->
+  CReach3 dbg hp hpo hd u -> base_ok u = true /\ alphabet_ok u /\ sharp u.
+Proof.
+  intros dbg hp hpo hd u HW HOK HI HV R. pose proof (creach3_F dbg hp hpo hd u R) as RF.
+  split; [exact (proj1 (creachF_base_ok dbg hp hpo hd HW HOK HI HV u RF))|].
+  split; [exact (creachF_alphabet dbg hp hpo hd HW HOK HI HV u RF) | exact (creachF_sharp dbg hp hpo hd HW HOK HI HV u RF)].
+Qed.
+Check C05_reach3_sharp : forall dbg hp hpo hd u, HostWf hp hpo hd -> HostOK hp hpo hd -> IpDisp hd -> IpOKv hd ->
+  CReach3 dbg hp hpo hd u -> base_ok u = true /\ alphabet_ok u /\ sharp u.
+Print Assumptions C05_reach3_sharp.
+
 Theorem C05_reachF_sub : forall dbg hp hpo hd u, CReachF dbg hp hpo hd u -> ReachableQ dbg hp hpo hd u.
 Proof. exact creachF_Q. Qed.
 Check C05_reachF_sub : forall dbg hp hpo hd u, CReachF dbg hp hpo hd u -> ReachableQ dbg hp hpo hd u.
